@@ -33,6 +33,19 @@ theorem layer_mono {g : Graph} (hn : (nodes g).Nodup) {ls : List (List Nat)}
 -- non-vacuity: an accepted graph with edges, its layers
 example : checkDAG [(0, [1, 2]), (1, [2]), (2, []), (3, [2])] = .ok [[0, 3], [1], [2]] := by decide
 
+/-- the same on the `layer` fields of the map `NewMap` returns; layers lie below `Nlayer` -/
+theorem layer_mono_map {g : Graph} (hn : (nodes g).Nodup) {m : Map} (h : newMap g = .ok m)
+    {u v : Nat} (he : Edge g u v) :
+    m.layer.get u < m.layer.get v ∧ m.layer.get v < m.nlayer := by
+  obtain ⟨ls, hc, rfl⟩ := newMap_ok_iff.mp h
+  have hacc := accepted_of_check hn hc
+  have hu := edge_src_mem he
+  have hv := hacc.closed u v he
+  show (tab (nodes g) (layerIdx ls)).get u < (tab (nodes g) (layerIdx ls)).get v ∧
+    (tab (nodes g) (layerIdx ls)).get v < ls.length
+  rw [get_tab_mem _ hu, get_tab_mem _ hv]
+  exact ⟨layer_mono hn hc he, layerIdx_lt_length (hacc.all v hv)⟩
+
 /-- **The layering does not depend on Go's map order**: running the inner loops of
     `makeLayers` literally (`out.nhit++; if out.nhit == len(out.Ins) { next += out }`),
     with `cur` and every `Outs` map traversed in any order, yields exactly the hit
@@ -100,27 +113,6 @@ example : (checkDAG [(0, [1]), (1, [])]).accepted = true := by decide
 example : checkDAG [(0, [1]), (1, [2]), (2, [0])] = .circle 3 := by decide
 example : checkDAG [(0, [1]), (1, [7])] = .missing := by decide
 
-theorem checkDAG_circle {g : Graph} {k : Nat} (h : checkDAG g = .circle k) :
-    Closed g ∧ minCircleLen g = some k := by
-  unfold checkDAG at h
-  cases hm : missing g with
-  | true => simp [hm] at h
-  | false =>
-    refine ⟨missing_false_iff.mp hm, ?_⟩
-    simp only [hm, Bool.false_eq_true, if_false, makeLayers] at h
-    cases hl : layersOf g with
-    | none => simp [hl] at h
-    | some ls =>
-      simp only [hl] at h
-      by_cases hleft : leftOf g ls = []
-      · simp [hleft] at h
-      · simp only [hleft, if_false] at h
-        cases hc : minCircleLen g with
-        | none => simp [hc] at h
-        | some k' =>
-          simp only [hc, Check.circle.injEq] at h
-          rw [h]
-
 /-- **The checker always answers**: it neither runs out of the model's fuel (the
     layering loop ends within `n + 1` rounds) nor reaches `panic("should find a
     circle")` (when nodes are left over, the cycle search finds a cycle). -/
@@ -167,6 +159,45 @@ theorem check_total {g : Graph} (hn : (nodes g).Nodup) :
         · simp [hleft] at h
         · simp only [hleft, if_false, hm'] at h
           cases h
+
+/-- **How a graph is rejected**: "missing node" exactly when some edge target is not a
+    node, a cycle exactly when all targets exist and the graph is cyclic. -/
+theorem check_rejects {g : Graph} (hn : (nodes g).Nodup) :
+    (checkDAG g = .missing ↔ ¬ Closed g) ∧
+    ((∃ k, checkDAG g = .circle k) ↔ Closed g ∧ ¬ Acyclic g) := by
+  have hmiss : checkDAG g = .missing ↔ ¬ Closed g := by
+    rw [← missing_false_iff]
+    unfold checkDAG makeLayers
+    cases hm : missing g with
+    | true => simp
+    | false =>
+      simp only [Bool.false_eq_true, if_false, not_true_eq_false, iff_false]
+      cases layersOf g with
+      | none => simp
+      | some ls =>
+        simp only
+        split
+        · simp
+        · cases minCircleLen g <;> simp
+  refine ⟨hmiss, ?_⟩
+  constructor
+  · rintro ⟨k, hk⟩
+    obtain ⟨hcl, _⟩ := checkDAG_circle hk
+    refine ⟨hcl, fun hac => ?_⟩
+    have := (check_iff hn).mpr ⟨hcl, hac⟩
+    rw [hk] at this
+    cases this
+  · rintro ⟨hcl, hnac⟩
+    obtain ⟨h1, h2⟩ := check_total hn
+    cases hc : checkDAG g with
+    | ok ls =>
+      exfalso
+      have : (checkDAG g).accepted = true := by rw [hc]; rfl
+      exact hnac ((check_iff hn).mp this).2
+    | missing => exact absurd hcl (hmiss.mp hc)
+    | circle k => exact ⟨k, rfl⟩
+    | panicNoCircle => exact absurd hc h2
+    | outOfFuel => exact absurd hc h1
 
 /-- **A reported cycle is a real cycle**: consecutive nodes are joined by edges and
     the last node has an edge back to the first.  (`reportable g c`: `c` is one of the
@@ -342,5 +373,10 @@ theorem map_reverse_twice (M : Map) (hl : ∀ v ∈ M.nodes, M.layer.get v < M.n
   rw [get_tab_mem _ hv, get_tab_mem _ hv]
   have := hl v hv
   omega
+
+-- non-vacuity: a chain of three layers, mirrored and mirrored back
+example : ∃ m, newMap [(0, [1]), (1, [2]), (2, [])] = .ok m ∧ m.layer.get 0 = 0 ∧
+    m.reverse.layer.get 0 = 2 ∧ m.reverse.reverse.layer.get 0 = 0 ∧ m.reverse.ins.get 0 = [1] :=
+  ⟨_, rfl, by decide, by decide, by decide, by decide⟩
 
 end PubModel.C19
